@@ -212,7 +212,8 @@ Definition ok_C13 (case obs: list N) : list N := snd (c13_eval case obs).
 
 (* ---------- C19: memory held between polls ---------- *)
 (* the model's count of frames held after each poll, recomputed here from the case, bounds the
-   implementation's measured heap: heap <= 96 + 40 * held, and heap = 0 whenever nothing is held;
+   implementation's measured heap: heap <= 96 + 40 * announced (the property's bound: proportional to the ANNOUNCED size of the packet in
+   flight - an implementation may reserve room for the whole packet when it sees the start frame), and heap = 0 whenever nothing is held;
    held itself never exceeds the announced frame count (<= 4096) *)
 Definition held_of (b: option builder) : N := match b with Some x => nlen (b_frames x) | None => 0 end.
 Fixpoint polls_held (M: machine) (fuel: nat) (b: option builder) (s: list (tok M)) : list (res * N * N) :=   (* result, held, announced *)
@@ -254,7 +255,7 @@ Definition c19_eval (case obs: list N) : list N * list N :=
           let rows := combine hs ps in
           let fine (row: (res * N * N) * (list N * N * N)) :=
             let '((r, held, ann), (_, _, heap)) := row in
-            (heap <=? 96 + 40 * held) && ((0 <? held) || (heap =? 0)) && (held <=? ann) && (ann <=? 4096) in
+            (heap <=? 96 + 40 * ann) && ((0 <? held) || (heap =? 0)) && (held <=? ann) && (ann <=? 4096) in
           let bad_fine := if same then filter (fun row => negb (fine row)) rows else [] in
           ([b2N (match bad_uni with [] => true | _ => false end); b2N (match bad_fine with [] => true | _ => false end); b2N (match grow with [] => true | _ => false end)],
            match grow with ((e, pk), hb) :: _ => [142; pk; hb; snd (fst e)] | [] =>
